@@ -119,7 +119,13 @@ async def run_history(w: World, steps, sessions):
                 nn = len(hx.mbox.uids) if hx.mbox is not None else 0
                 uu = list(hx.mbox.uids) if hx.mbox is not None else []
                 tag = w.new_tag()
-                res = await w.cmd(x["s"], render(x["c"], nn, uu), tag=tag, settle=0)
+                if x.get("delay"):
+                    await asyncio.sleep(x["delay"])
+                sx.stall = x.get("stall", 0)       # a slow client keeps its command executing
+                try:
+                    res = await w.cmd(x["s"], render(x["c"], nn, uu), tag=tag, settle=0)
+                finally:
+                    sx.stall = 0
                 return x, res, tag
             outs = await asyncio.gather(*[one(x) for x in st["par"]])
             for o in outs:
